@@ -483,6 +483,8 @@ type ReplayFile struct {
 	TestPkg    string   `json:"test_pkg,omitempty"`
 	GoTestOut  string   `json:"go_test_output,omitempty"`
 	Reproduced bool     `json:"reproduced"`
+	ReplayNote string   `json:"replay_note,omitempty"`
+	InputOnly  string   `json:"counterexample_input_as_go_test,omitempty"`
 	Path       string   `json:"-"`
 }
 
